@@ -7,6 +7,8 @@ GO126 = ["go1.26.8"]
 BINARIES = {
     # all engines on the repository's own toolchain
     "hx": {"go": GO, "pkg": "./hx/", "flags": [], "env": {"GOTOOLCHAIN": "auto"}},
+    # the same package under the race detector (concurrency checks)
+    "hxrace": {"go": GO, "pkg": "./hx/", "flags": ["-race"], "env": {"GOTOOLCHAIN": "auto"}, "runenv": {"GORACE": "halt_on_error=1"}},
     # virtual-time engines (testing/synctest needs the newer toolchain)
     "vt": {"go": GO126, "pkg": "./vt/", "flags": [], "env": {"GOTOOLCHAIN": "local"}},
     # message constructors / decoders (small dependency tree: fast native fuzzing)
@@ -25,6 +27,12 @@ def prop(pid, title, level, engine, technique, runs, assumptions, level_text, le
 
 def hx(test, quick, thorough, shards=16, **kw):
     d = {"bin": "hx", "test": test, "quick": quick, "thorough": thorough, "shards_thorough": shards}
+    d.update(kw)
+    return d
+
+
+def hxr(test, quick, thorough, shards=8, **kw):
+    d = {"bin": "hxrace", "test": test, "quick": quick, "thorough": thorough, "shards_thorough": shards}
     d.update(kw)
     return d
 
@@ -144,7 +152,7 @@ prop("C06", "Durable and prefix-consistent across crashes", "fault_enumeration",
 
 prop("C07", "Transfer accounting counts every block position once", "exploration", "fsmx",
      "model-based property testing (rapid): run-structured block-report sequences with replays, duplicates and reopen against a reference accumulator; arbitrary triples for monotonicity",
-     [hx("TestC07_Fsmx", 1500, 32000), hx("TestC07_FsmxArbitrary", 1000, 16000), hx("TestC16_Gsx", 800, 8000)],
+     [hx("TestC07_Fsmx", 1500, 32000), hx("TestC07_FsmxArbitrary", 1000, 16000), hx("TestC16_Gsx", 800, 8000), hxr("TestC07_RaceReports", 150, 4000)],
      ["equality with the sum over distinct positions is asserted for run-structured input in a transferring status only (DESIGN 6.4)"],
      "generated report sequences against a reference accumulator; sampled, not exhaustive",
      TRUST)
@@ -171,6 +179,14 @@ prop("C11", "Pause state per party", "exploration", "fsmx",
      "generated interleavings of the four pause/resume actions and limit pauses in every reachable status, both roles; sampled",
      TRUST)
 
+prop("C18", "Channel identities never collide", "exploration", "racex",
+     "property testing (rapid) under the Go race detector: concurrent opens checked for uniqueness / monotonicity / happens-before order of the returned ids; manager lifetimes and duplicate requests with a byte-level diff of the existing record",
+     [hxr("TestC18_RaceOpens", 60, 1600), hx("TestC18_Mgrx", 1200, 24000), hx("TestC18_FsmxDuplicate", 1000, 16000)],
+     ["non-decreasing wall clock across manager lifetimes (as the statement assumes)",
+      "interleavings of the concurrent opens are sampled by the Go scheduler; the race detector reports only races that occur in executed interleavings"],
+     "generated goroutine counts x opens per goroutine (2..16 x 1..40) under -race, generated lifetimes and duplicate points; sampled",
+     TRUST + "; the Go race detector")
+
 prop("C19", "Channel state views are total and self-consistent", "exploration", "fsmx",
      "property testing (rapid): total accessor probe under recover and cross-view consistency on every state the explorers obtain, append-only log checks",
      [hx("TestC19_Fsmx", 1500, 32000), hx("TestC19_Mgrx", 1000, 32000), hx("TestC04_MgrxUpdate", 600, 8000), hx("TestC04_MgrxRestart", 600, 8000)],
@@ -178,7 +194,18 @@ prop("C19", "Channel state views are total and self-consistent", "exploration", 
      "every state produced by generated histories is probed; reachable states are sampled",
      TRUST)
 
+prop("C20", "Concurrent use is free of data races and deadlocks", "exploration", "racex",
+     "generated concurrent programs (rapid) under the Go race detector with call-return watchdogs, a production-like Stop protocol and a post-Stop goroutine dump inspection; plus every graphsync hook x every message kind (return check)",
+     [hxr("TestC20_Race", 40, 1600), hx("TestC20_GsxHooks", 1500, 32000), hxr("TestC18_RaceOpens", 30, 400), hxr("TestC07_RaceReports", 60, 800)],
+     ["the harness does not own the Go scheduler: schedules are sampled, and the detector only reports races that occur in executed interleavings",
+      "Stop is driven the way production does: API callers are joined first, transport callbacks on existing channels keep arriving until the transport's Shutdown (the last step of Stop)",
+      "bounded liveness: a call that has not returned after 20..60 s (typical latency: microseconds) is a deadlock"],
+     "weakest check of the set: random concurrent programs (3..8 goroutines x 10..50 operations, GOMAXPROCS in {2,4,16}); a schedule-dependent failure may not replay bit-for-bit, the program text and the detector report / goroutine dump are the artifact",
+     TRUST + "; the Go race detector")
+
+
 ENGINES = [
+    {"name": "racex", "path": "harness/hx/racex_test.go (built with -race as hxrace)", "serves_properties": ["C07", "C18", "C20"], "kind_free_text": "rapid-generated concurrent programs over a shared manager / channel under the Go race detector, with call-return watchdogs and post-Stop goroutine inspection"},
     {"name": "e2e", "path": "harness/hx (e2e_*_test.go)", "serves_properties": ["C01"], "kind_free_text": "rapid scenario tests over two full nodes: libp2p mocknet, real go-graphsync, real network/transport/manager"},
     {"name": "gsx", "path": "harness/hx (gsx_*_test.go), harness/dbl/gs.go", "serves_properties": ["C05", "C07", "C09", "C10", "C11", "C16", "C20"], "kind_free_text": "rapid stateful tests of the real graphsync transport over a fake GraphExchange and a scriptable events handler"},
     {"name": "mon", "path": "harness/vt/mon_test.go", "serves_properties": ["C14"], "kind_free_text": "rapid property tests of channelmonitor in a testing/synctest bubble (go1.26.8)"},
@@ -196,3 +223,5 @@ NOT_APPLICABLE = [
     {"property_id": p, "reason": "check not built yet in this session (implementation in progress, see DESIGN.md section 7)"}
     for p in _ALL if p not in PROPS
 ]
+
+
